@@ -1,7 +1,7 @@
 (** * C12 property theorems — statements only; proofs live in C12/*Proofs.v. *)
 From Coq Require Import Reals ZArith List.
 From Celer Require Import Base.Num Base.NumR Base.Vec3
-  C12.Solver C12.Surfaces C12.Transforms C12.SolverProofs C12.SurfacesProofs.
+  C12.Solver C12.Surfaces C12.Transforms C12.SolverProofs C12.SurfacesProofs C12.TransformsProofs.
 Import ListNotations.
 Local Open Scope R_scope.
 
@@ -108,3 +108,58 @@ Theorem C12_surf_normal_is_unit_gradient : forall s p,
   let n := surf_normal s p in vdot n n = 1 /\ exists k, 0 < k /\ surf_grad s p = vscale k n.
 Proof. exact surf_normal_is_unit_gradient. Qed.
 Print Assumptions C12_surf_normal_is_unit_gradient.
+
+(** ** Transforms *)
+(** SurfaceTranslator with the SimpleQuadric constant term repaired ([translate_surface_gen true]) *)
+Theorem C12_translate_sense : forall tra s p,
+  surf_sense (translate_surface_gen true tra s) (tr_up tra p) = surf_sense s p.
+Proof. exact translate_sense. Qed.
+Print Assumptions C12_translate_sense.
+
+(** SurfaceTranslator as coded: every type but SimpleQuadric; SimpleQuadric iff first . t = 0 *)
+Theorem C12_translate_sense_as_coded_partial : forall tra s p,
+  (match s with SSimpleQuadric _ def _ => vdot def tra = 0 | _ => True end) ->
+  surf_sense (translate_surface tra s) (tr_up tra p) = surf_sense s p.
+Proof. exact translate_sense_as_coded. Qed.
+Print Assumptions C12_translate_sense_as_coded_partial.
+
+(** ... and the code's SimpleQuadric translation does NOT preserve the point set (finding) *)
+Theorem C12_translate_sq_refuted :
+  exists tra s p, surf_sense s p = Inside /\ surf_sense (translate_surface tra s) (tr_up tra p) = Outside.
+Proof. exact translate_sq_refuted. Qed.
+Print Assumptions C12_translate_sq_refuted.
+
+(** SurfaceTransformer, R orthogonal (rotations and reflections), all types via the promotion chain *)
+Theorem C12_transform_sense : forall tf s p, orthogonal (tf_rot tf) -> surf_wf s ->
+  surf_sense (transform_surface tf s) (tf_up tf p) = surf_sense s p.
+Proof. exact transform_sense. Qed.
+Print Assumptions C12_transform_sense.
+
+(** the quadric conjugation is the substitution x = R^T (x' - t) *)
+Theorem C12_transform_gq_is_substitution : forall tf abc def ghi j x,
+  surf_f (transform_gq tf abc def ghi j) x = surf_f (SGeneralQuadric abc def ghi j) (tf_down tf x).
+Proof. exact transform_gq_value. Qed.
+Print Assumptions C12_transform_gq_is_substitution.
+
+Theorem C12_down_up_id : forall tf p, orthogonal (tf_rot tf) -> tf_down tf (tf_up tf p) = p.
+Proof. exact down_up_id. Qed.
+Print Assumptions C12_down_up_id.
+
+Theorem C12_up_down_id : forall tf p, orthogonal (tf_rot tf) -> tf_up tf (tf_down tf p) = p.
+Proof. exact up_down_id. Qed.
+Print Assumptions C12_up_down_id.
+
+Theorem C12_translation_down_up : forall tra p,
+  tr_down tra (tr_up tra p) = p /\ tr_up tra (tr_down tra p) = p.
+Proof. exact translation_down_up. Qed.
+Print Assumptions C12_translation_down_up.
+
+Theorem C12_signed_perm_orthogonal : forall (p : sperm) (d : vec), sp_valid p = true ->
+  sp_rotate_down p (sp_rotate_up p d) = d /\ sp_rotate_up p (sp_rotate_down p d) = d /\
+  vdot (sp_rotate_up p d) (sp_rotate_up p d) = vdot d d.
+Proof. exact signed_perm_orthogonal. Qed.
+Print Assumptions C12_signed_perm_orthogonal.
+
+Theorem C12_signed_perm_encoding : forall p : sperm, sp_decode (sp_encode p) = p.
+Proof. exact signed_perm_encoding. Qed.
+Print Assumptions C12_signed_perm_encoding.
